@@ -72,8 +72,9 @@ Open(t, lab, ownlog, owntrace) ==
      /\ obs' = LineOf(s, "info", "noargs", FALSE)     \* the probe logged through the new scope
   /\ UNCHANGED alive
 
-(* leaving the innermost scope (nothing is logged by the environment) *)
-Close(t) ==
+(* leaving the innermost scope - its body returns, or the task is cancelled inside it and the cancellation is caught
+   right outside the block; either way the task is back in the enclosing scope (nothing is logged by the environment) *)
+Close(t, how) ==
   /\ Op /\ alive[t] = "run" /\ stack[t] # <<>>
   /\ LET s == stack[t][Len(stack[t])] IN
      /\ phase' = [phase EXCEPT ![s] = "finished"]
@@ -101,7 +102,7 @@ Start(t, u) ==
 
 Next == \E t \in Tasks :
           \/ \E lab \in Labels, ol \in BOOLEAN, ot \in BOOLEAN : Open(t, lab, ol, ot)
-          \/ Close(t)
+          \/ \E how \in {"return", "cancel"} : Close(t, how)
           \/ \E lvl \in Levels, text \in Texts, exc \in BOOLEAN : Log(t, lvl, text, exc)
           \/ \E u \in Tasks : Start(t, u)
 Spec == Init /\ [][Next]_vars
